@@ -11,7 +11,7 @@ from symv.hooks import Hooks
 
 META = {
     "level": "exploration",
-    "level_text": "Array level: for generated abelian and fermionic arrays (size-one axes of zero / non-zero charge, fused axes, sparsity) EVERY target shape reachable by merging adjacent axes and dropping size-one axes is requested; post-conditions (rank, axis sizes, exact sum of squares, bit-exact multiset of magnitudes) and the bit-exact round trip back to the original shape and indices are monitored; reshape to the current shape must be the identity. Routine level: the axis-matching routine is run on ALL shapes with <=5 axes over {1,2,3,4,6} x all reachable targets, forward and back, and its plan is executed by a shape simulator that must land exactly on the requested shape (exhaustive over that box in both tiers). Later additions: sibling arrays through the same 3-4 level merge chain and stepwise back, conj of the merged array unmerged level by level, mixed-dtype subjects (norm by exactly rounded summation), unfuse-and-merge requests, long-shape routine stream (6-9 axes).",
+    "level_text": "Array level: for generated abelian and fermionic arrays (size-one axes of zero / non-zero charge, fused axes, sparsity) EVERY target shape reachable by merging adjacent axes and dropping size-one axes is requested; post-conditions (rank, axis sizes, exact sum of squares, bit-exact multiset of magnitudes) and the bit-exact round trip back to the original shape and indices are monitored; reshape to the current shape must be the identity. Routine level: the axis-matching routine is run on ALL shapes with <=5 axes over {1,2,3,4,6} x all reachable targets, forward and back, and its plan is executed by a shape simulator that must land exactly on the requested shape (exhaustive over that box in both tiers). Later additions: sibling arrays through the same 3-4 level merge chain and stepwise back, conj of the merged array unmerged level by level, mixed-dtype subjects (norm by exactly rounded summation), unfuse-and-merge requests, long-shape routine stream (6-9 axes). Round 9: runs of 5-8 adjacent axes merged into one and reshaped back, bit-exact, incl. fermionic sectors with six or more odd charges in the run.",
     "technique": "runtime monitoring: post-condition + round-trip oracle on arrays; exhaustive plan simulation for the axis-matching routine",
     "rule": (
         "array stream: one evaluation = one reshape call judged by post-conditions and (for reachable targets) the round trip; all reachable targets per generated array. "
